@@ -287,6 +287,17 @@ fn check_misc(k: usize) -> Option<Witness> {
                let q = Query::select().column(a("c")).from(a("t")).inner_join(a("u"), c).to_owned();
                e.q(if k == 8 { "SELECT `c` FROM `t` INNER JOIN `u` ON TRUE" } else { "SELECT `c` FROM `t` INNER JOIN `u` ON FALSE" });
                (q.to_string(MysqlQueryBuilder), q.to_string(PostgresQueryBuilder)) }
+        // [NOT] MATERIALIZED: Postgres' form of the option given (MySQL has none)
+        10 | 11 => { let c = cte().materialized(k == 10).to_owned();
+               let q = Query::select().column(a("c")).from(a("t")).to_owned().with(WithClause::new().cte(c).to_owned());
+               e.both("WITH `cte` (`c`) AS (SELECT `c` FROM `v`) ", if k == 10 { "WITH \"cte\" (\"c\") AS MATERIALIZED (SELECT \"c\" FROM \"v\") " } else { "WITH \"cte\" (\"c\") AS NOT MATERIALIZED (SELECT \"c\" FROM \"v\") " });
+               e.q("SELECT `c` FROM `t`");
+               (q.to_string(MysqlQueryBuilder), q.to_string(PostgresQueryBuilder)) }
+        // a clause withdrawn again takes nothing else with it
+        12 | 13 => { let mut q = Query::select(); q.column(a("c")).from(a("t")).limit(5).offset(7);
+               if k == 12 { q.reset_offset(); e.q("SELECT `c` FROM `t` LIMIT 5"); } else { q.reset_limit(); e.q("SELECT `c` FROM `t` OFFSET 7"); }
+               if k == 13 { return { let pg = q.to_string(PostgresQueryBuilder); if norm(&pg) == norm("SELECT \"c\" FROM \"t\" OFFSET 7") { None } else { Some(Witness { property: "C08", input: format!("misc k={k}"), observed: format!("postgres: {pg}"), expected: "SELECT \"c\" FROM \"t\" OFFSET 7".into() }) } }; }
+               (q.to_string(MysqlQueryBuilder), q.to_string(PostgresQueryBuilder)) }
         _ => return None,
     };
     verdict(format!("misc k={k}"), &e, my, pg)
@@ -327,7 +338,7 @@ pub fn search(_obl: &str) -> Vec<Witness> {
     for nfrom in 0..3usize { for mask in 0..16u32 { run!(check_update(nfrom, mask)); } }
     for mask in 0..32u32 { run!(check_delete(mask)); }
     for mask in 0..8u32 { run!(check_with(mask)); }
-    for k in 0..10usize { run!(check_misc(k)); }
+    for k in 0..14usize { run!(check_misc(k)); }
     for shape in 0..5usize { for conflict in 0..9usize { for returning in 0..3usize { for with in [false, true] { run!(check_insert(shape, conflict, returning, with)); } } } }
     // ORDER BY item kinds x NULLS forms and lock forms, alone and with every other clause present
     for ord in 0..9usize { for lock in 0..4usize { for mask in [1 << 10, (1 << 10) | (1 << 13), (1 << SEL_BITS) - 1] { run!(check_select(mask, ord, lock)); } } }
